@@ -120,6 +120,9 @@ fn pick_flavour<const M: usize>(s: &mut Sim<M>) -> Flavour {
 
 /// one random step; returns the op kind index
 pub fn step<const M: usize>(s: &mut Sim<M>, rep: &mut Report, p: &Profile) -> (usize, Outcome) {
+    if s.poisoned {
+        return (0, Outcome::Ok);
+    }
     let k = s.rng.weighted(&p.w);
     rep.bump(&format!("op.{}", OP_NAMES[k]));
     let out = match k {
@@ -163,6 +166,8 @@ pub fn step<const M: usize>(s: &mut Sim<M>, rep: &mut Report, p: &Profile) -> (u
             let fail = if len > 0 && s.rng.chance(3, 5) { Some(s.rng.below(len)) } else { None };
             let it = s.rng.chance(1, 2);
             s.slice_inner = *s.rng.pick(&[0u8, 0, 1, 2]);
+            // an allocating initialiser makes one arena call per element: keep those slices short
+            let (len, fail) = if s.slice_inner != 0 && len > 200 { (200, fail.map(|f| f % 200)) } else { (len, fail) };
             let o = s.op_slice_try_fill(rep, ty, len, fail, it, true);
             s.slice_inner = 0;
             o
